@@ -15,6 +15,7 @@ package main
 import (
 	"bytes"
 	"debug/elf"
+	"encoding/binary"
 	"fmt"
 
 	"github.com/sarchlab/akita/v4/mem/vm"
@@ -51,6 +52,9 @@ func uploadObjects() []*insts.KernelCodeObject {
 		meta := &insts.KernelCodeObjectMeta{}
 		meta.KernargSegmentByteSize = 16
 		meta.WFSgprCount, meta.WIVgprCount = 16, 4
+		// LDS size "as stored in the file": non-zero and different per object, so that a packet which does not carry it
+		// (or carries another object's) is visible
+		meta.GroupSegmentByteSize = uint32(n)*4 + uint32(seed)*16
 		data := make([]byte, n)
 		for i := range data {
 			data[i] = byte(i*7) + seed
@@ -75,8 +79,12 @@ func uploadObjects() []*insts.KernelCodeObject {
 type upArgs struct {
 	P   uint64
 	N   uint32
+	L   driver.LocalPtr // dynamic LDS: the driver places it behind the kernel's static LDS
+	L2  driver.LocalPtr
 	Pad uint32
 }
+
+const upDynLDS1, upDynLDS2 = 96, 32
 
 func runUpload(c uploadCase) (sig, msg string) {
 	defer func() {
@@ -124,7 +132,7 @@ func runUploadNoRecover(c uploadCase) (sig, msg string) {
 			ci = c.Ctx[launch]
 		}
 		q, pid := queues[ci], driver.VerifContextPID(ctxs[ci])
-		d.EnqueueLaunchKernel(q, objs[i], [3]uint32{512, 1, 1}, [3]uint16{64, 1, 1}, &upArgs{N: 4})
+		d.EnqueueLaunchKernel(q, objs[i], [3]uint32{512, 1, 1}, [3]uint16{64, 1, 1}, &upArgs{N: 4, L: upDynLDS1, L2: upDynLDS2})
 		want := objs[i]
 		check := func(co *insts.KernelCodeObject, lpid vm.PID, pkt *kernels.HsaKernelDispatchPacket, what string) bool {
 			if co != want {
@@ -134,6 +142,34 @@ func runUploadNoRecover(c uploadCase) (sig, msg string) {
 			if lpid != pid {
 				sig, msg = "driver-upload/launch-command-carries-another-pid", fmt.Sprintf("launch %d (%s) of sequence %v: pid %d, the launching context's is %d", launch+1, what, c.Seq, lpid, pid)
 				return false
+			}
+			// the launch carries the loaded kernel's LDS requirement: static size from the code object + dynamic LDS arguments
+			if wantLDS := want.GroupSegmentByteSize + upDynLDS1 + upDynLDS2; pkt.GroupSegmentSize != wantLDS {
+				sig = "driver-upload/dispatch-packet-lds-size-is-not-the-loaded-kernels"
+				msg = fmt.Sprintf("launch %d (%s) of the sequence %v over {%v}: the dispatch packet says group_segment_size %d; the launched code object's LDS size is %d and the arguments add %d+%d of dynamic LDS (want %d)",
+					launch+1, what, c.Seq, uploadAlphabet, pkt.GroupSegmentSize, want.GroupSegmentByteSize, upDynLDS1, upDynLDS2, wantLDS)
+				return false
+			}
+			// the kernel-argument block on the device holds the LDS offsets of the dynamic LDS arguments
+			{
+				var kb [24]byte
+				okAll := true
+				for j := range kb {
+					pa, ok := phys(lpid, pkt.KernargAddress+uint64(j))
+					if !ok {
+						okAll = false
+						break
+					}
+					kb[j] = memory[pa]
+				}
+				l1 := uint32(kb[12]) | uint32(kb[13])<<8 | uint32(kb[14])<<16 | uint32(kb[15])<<24
+				l2 := uint32(kb[16]) | uint32(kb[17])<<8 | uint32(kb[18])<<16 | uint32(kb[19])<<24
+				if !okAll || l1 != want.GroupSegmentByteSize || l2 != want.GroupSegmentByteSize+upDynLDS1 || kb[8] != 4 {
+					sig = "driver-upload/kernel-argument-block-on-device-is-not-the-launch-arguments"
+					msg = fmt.Sprintf("launch %d (%s) of the sequence %v over {%v}: kernarg block at %#x (mapped=%v) holds N=%d, dynamic LDS offsets %d and %d; want N=4, offsets %d and %d",
+						launch+1, what, c.Seq, uploadAlphabet, pkt.KernargAddress, okAll, kb[8], l1, l2, want.GroupSegmentByteSize, want.GroupSegmentByteSize+upDynLDS1)
+					return false
+				}
 			}
 			got := make([]byte, len(want.Data))
 			for j := range got {
@@ -163,11 +199,16 @@ func runUploadNoRecover(c uploadCase) (sig, msg string) {
 			cmd := q.Dequeue()
 			switch m := cmd.(type) {
 			case *driver.MemCopyH2DCommand:
-				if data, ok := m.Src.([]byte); ok {
-					for j, b := range data {
-						if pa, ok := phys(pid, uint64(m.Dst)+uint64(j)); ok {
-							memory[pa] = b
-						}
+				data, ok := m.Src.([]byte)
+				if !ok { // structures travel in little-endian layout, as the driver's copy middleware serialises them
+					var buf bytes.Buffer
+					if err := binary.Write(&buf, binary.LittleEndian, m.Src); err == nil {
+						data = buf.Bytes()
+					}
+				}
+				for j, b := range data {
+					if pa, ok := phys(pid, uint64(m.Dst)+uint64(j)); ok {
+						memory[pa] = b
 					}
 				}
 			case *driver.LaunchKernelCommand:
